@@ -68,6 +68,15 @@ def install_registries(E):
 
 
 SCENARIOS = {
+    "same-object-entered-twice": """
+def prog(pre):
+    c = Calibration(streamline=S)
+    with c:
+        probe()
+    with c:
+        probe()
+    return "done"
+""",
     "constructed-not-entered": """
 def prog(pre):
     c = Calibration(streamline=S)
@@ -78,26 +87,31 @@ def prog(pre):
     c = Calibration(streamline=S)
     d = Calibration(momentum=0.5, streamline=S)
     with c:
+        probe()
         pass
     return "done"
 """,
     "normal": """
 def prog(pre):
     with Calibration(streamline=S):
+        probe()
         pass
     return "done"
 """,
     "exception": """
 def prog(pre):
     with Calibration(streamline=S):
+        probe()
         raise RuntimeError("raised inside a forward")
     return "done"
 """,
     "nested-inner-exception": """
 def prog(pre):
     with Calibration(streamline=S):
+        probe()
         try:
             with Calibration(momentum=0.5, streamline=S):
+                probe()
                 raise RuntimeError("raised inside a forward")
         except RuntimeError:
             pass
@@ -106,7 +120,9 @@ def prog(pre):
     "nested-outer-exception": """
 def prog(pre):
     with Calibration(streamline=S):
+        probe()
         with Calibration(momentum=0.5, streamline=S):
+            probe()
             pass
         raise ValueError("raised after the inner context")
     return "done"
@@ -114,13 +130,16 @@ def prog(pre):
     "sequential": """
 def prog(pre):
     with Calibration(streamline=S):
+        probe()
         pass
     try:
         with Calibration(streamline=S):
+            probe()
             raise RuntimeError("x")
     except RuntimeError:
         pass
     with Calibration(streamline=S):
+        probe()
         pass
     return "done"
 """,
@@ -135,7 +154,11 @@ def scoping(run):
             E = OC.engine(run)
             install_registries(E)
             E.load_module(CAL)
-            prog = E.snippet(src.replace("S)", f"{streamline})"), CAL)
+            def probe(E2):
+                regs_ = E2.ps.get("registries", {})
+                E2.ps.setdefault("probes", []).append((len(regs_.get("pre", [])), len(regs_.get("post", [])), len(regs_.get("modes", []))))
+
+            prog = E.snippet(src.replace("S)", f"{streamline})"), CAL, {"probe": Builtin("probe", probe)})
             state = {}
 
             def setup(E2):
@@ -161,6 +184,11 @@ def scoping(run):
                 restored = (regs.get("pre") == [("other-pre", "hook0")] and regs.get("post") == [("other-post", "hook1")] and regs.get("modes") == ["outer-mode"])
                 run.add(f"C13/registries-restored[{tag}]/path{pi}", r.hyps, z3.BoolVal(bool(restored)), "property", inst,
                         {"after": {k: [str(x) for x in v] for k, v in regs.items()}}, replay=rp)
+                probes = r.ps.get("probes", [])
+                active = bool(probes) and all(p_[0] >= 2 and p_[1] >= 2 and p_[2] >= 2 for p_ in probes)
+                if name != "constructed-not-entered":
+                    run.add(f"C13/calibration-is-active-inside-every-context[{tag}]/path{pi}", r.hyps, z3.BoolVal(active), "property", inst,
+                            {"registered (pre, post, modes) at each probe; 1 of each is somebody else's": probes}, replay=rp)
                 expect_exc = {"exception": "RuntimeError", "nested-outer-exception": "ValueError"}.get(name)
                 if expect_exc:
                     ok = r.outcome == "raise" and r.value.tname == expect_exc
@@ -509,7 +537,15 @@ def replay_scoping(model, seed, inst):
     lin = torch.nn.Linear(2, 2)
     try:
         try:
-            if inst["scenario"] == "constructed-not-entered":
+            if inst["scenario"] == "same-object-entered-twice":
+                c = Calibration(streamline=S)
+                counts = []
+                for _ in range(2):
+                    with c:
+                        counts.append((len(M._global_forward_pre_hooks), len(M._global_forward_hooks)))
+                if any(a_ < len(before[0]) + 1 or b_ < len(before[1]) + 1 for a_, b_ in counts):
+                    return {"scenario": inst["scenario"], "streamline": S, "what": "no calibration hooks are registered inside a context entered a second time", "hooks_inside": counts}
+            elif inst["scenario"] == "constructed-not-entered":
                 c = Calibration(streamline=S)
             elif inst["scenario"] == "constructed-earlier-entered-later":
                 c = Calibration(streamline=S)
